@@ -49,6 +49,8 @@ func Layer(r *ev.Run) {
 		}
 		relaySession(r, srng, s, nil)
 	}
+	r.Extra("mysql_phase_a_wall_s", time.Since(t0).Seconds())
+	tBig := time.Now()
 	if only < 0 || only >= 1000 {
 		for i, bc := range bigCases(r) {
 			if only >= 1000 && only-1000 != i {
@@ -58,6 +60,7 @@ func Layer(r *ev.Run) {
 			relaySession(r, gen.New(r.Seed, fmt.Sprintf("c12my-big-%d", i)), 1000+i, &bc)
 		}
 	}
+	r.Extra("mysql_big_sessions_wall_s", time.Since(tBig).Seconds())
 	nB := r.Pick(14, 500)
 	for s := 0; s < nB; s++ {
 		srng := gen.New(r.Seed, fmt.Sprintf("c12my-b-%d-%d", s, rng.Int63()))
@@ -105,11 +108,11 @@ func bigCases(r *ev.Run) []bigCase {
 		{"payload=2^24", "execute", fakemysql.MaxFrame + 1},
 		{"payload=2^24-1", "textrow", fakemysql.MaxFrame},
 		{"payload=2^24", "textrow", fakemysql.MaxFrame + 1},
-		{"payload=2^24", "query", fakemysql.MaxFrame + 1},
 		{"payload=2^24", "binaryrow", fakemysql.MaxFrame + 1},
 	}
 	if r.Thorough() {
 		cs = append(cs,
+			bigCase{"payload=2^24", "query", fakemysql.MaxFrame + 1},
 			bigCase{"payload=2^24-2", "textrow", fakemysql.MaxFrame - 1},
 			bigCase{"payload=2^24-1", "query", fakemysql.MaxFrame},
 			bigCase{"payload=2^24-1", "binaryrow", fakemysql.MaxFrame},
@@ -399,7 +402,11 @@ func relaySession(r *ev.Run, rng *gen.Rand, sidx int, big *bigCase) {
 	// (used when the session did not end normally: a missing tail is then not evidence).
 	compare := func(prefixOnly bool) bool {
 		sent := rec.RawOut()
-		for i := 0; i < 600 && srv.RawInLen(1) < len(sent); i++ {
+		maxWait := 600
+		if prefixOnly {
+			maxWait = 40 // the session already ended abnormally: only what has arrived is compared
+		}
+		for i := 0; i < maxWait && srv.RawInLen(1) < len(sent); i++ {
 			time.Sleep(5 * time.Millisecond) // bounded wait for bytes already sent to arrive; never a verdict input
 		}
 		got := srv.RawInConn(1)
